@@ -230,6 +230,17 @@ func parseDirectives(doc *ast.CommentGroup, tier string) *Config {
 			cfg.Outside = append(cfg.Outside, rest)
 		case "nonative":
 			cfg.NoNative = true
+		case "lazyfp":
+			cfg.LazyFP = true
+			cfg.Bounds["float branches"] = "not pruned during exploration (both sides explored); every verdict query carries the full path condition"
+		case "fpabstract":
+			if cfg.FPAbstract == nil {
+				cfg.FPAbstract = map[string]bool{}
+			}
+			for _, f := range strings.Fields(rest) {
+				cfg.FPAbstract[f] = true
+			}
+			cfg.Stubs = append(cfg.Stubs, "float "+rest+" -> arbitrary result (any double, NaN and infinities included): sound over-approximation")
 		case "noyield":
 			cfg.NoYield = append(cfg.NoYield, strings.Fields(rest)...)
 			cfg.Bounds["no pre-emption at"] = rest
